@@ -85,6 +85,48 @@ CHECKS = {
         "Trusted: the 20-line list model; merging is sound because the tracker's only state is the retained result (backed by the no-merge run).",
         "DESIGN.md 2/C12",
     ),
+    "C06": (
+        "exhaustive enumeration of all operation sequences up to length 3 (E4) on one EnsembleEvaluator per sequence, no state merging; whole-run differentials (garbage, memoizing and pooled evaluators)",
+        "Bounded exhaustive exploration of the implementation: every sequence of functions / batch functions / gradient-only / combined evaluations at two points for the listed shapes, weights, filters, transforms and failure settings; label-completeness, value-by-label, activity-flag and immutability monitors on every call; differential runs with garbage in inactive entries, a memoizing evaluator and an evaluator that reuses read-only buffers.",
+        "Trusted: the recording evaluator (harness); raw per-realization values of inactive entries are excluded from the garbage differential.",
+        "DESIGN.md 2/C06",
+    ),
+    "C09": (
+        "exhaustive enumeration of masks x scripted request sequences (E4) x samplers x scaler x start values, real short optimizer runs with a wrapped scipy entry point, nested plans",
+        "Bounded exhaustive exploration of the implementation: all 7 masks (+none) of 3 variables, every scripted request sequence to depth 3 (quick) / 4 (thorough) incl. batch requests, from configured and explicit start values; slsqp / nelder-mead / differential evolution (scalar and vectorized) runs; nested plans with complementary masks; every evaluator row and every delivered result monitored.",
+        "Trusted: the monitors (harness); SciPy algorithms.",
+        "DESIGN.md 2/C09",
+    ),
+    "C11": (
+        "exhaustive differential enumeration: the same user-domain configuration run with and without each transform set through real evaluator and optimizer steps",
+        "Bounded exhaustive exploration of the implementation: full cross product of variable-transform settings (10 quick / 38 thorough) x objective/constraint scalers x bounds x linear rows and kinds x perturbation and boundary types x samplers; evaluator rows and all user-domain result arrays compared with the untransformed run; feasibility equivalence on a lattice; round trip.",
+        "Trusted: the untransformed run of the real code is the oracle (differential); dyadic scales.",
+        "DESIGN.md 2/C11",
+    ),
+    "C14": (
+        "deviation-bounded choice-point exploration (E2) of failure patterns over complete runs: every evaluator call x every row subset / evaluator exception, reference exit-code model",
+        "Fault enumeration on the implementation: all executions with <=1 deviation (quick) / <=2 (thorough, scripted and evaluator drivers) where a deviation is any non-empty subset of a call's rows failing or the evaluator raising; 120 configurations x 4 drivers (scripted, evaluator step, slsqp, differential evolution) x budgets; exit code, escaping exceptions, budget and delivery of failing results judged against a reference model.",
+        "Trusted: the reference exit-code model (about 120 lines) which uses the real filters to obtain filter weights; for real optimizers the expectation is derived from the recorded history.",
+        "DESIGN.md 2/C14",
+    ),
+    "C15": (
+        "deviation-bounded choice-point exploration (E2) with the user abort as deviation at every event delivery and evaluator call, over five plan shapes",
+        "Exhaustive exploration of the implementation within the deviation bound (2 quick / 3 thorough): abort raised at every delivery of every event to every receiver (handler, ancestor handler, observer) and inside every evaluator call, with failures and max_functions stops mixed in; stream grammar, delivery discipline, exit code and abort latch checked on every execution.",
+        "Trusted: the recording handler/observer harness; receivers after the aborting receiver of the same event are unspecified.",
+        "DESIGN.md 2/C15",
+    ),
+    "C16": (
+        "deviation-bounded choice-point exploration (E2) of environment deviations (global reseeding, global draws, complete nested foreign runs with fresh or shared manager/context) at every evaluator call; byte-identical trace oracle",
+        "Exhaustive exploration of the implementation within the deviation bound (1 quick / 2 thorough) for 17 configurations (every sampler method shared/unshared, two samplers, filter+stddev+mask, nelder-mead, seeded differential evolution scalar and vectorized); the full trace must be byte-identical to the solo run; rerun on the same manager; seed sensitivity.",
+        "Trusted: the evaluator is deterministic; no threads in ropt (interleaving is realised by nesting).",
+        "DESIGN.md 2/C16",
+    ),
+    "C20": (
+        "choice-point exploration (E2) over real two-process executions: every crash point (message index x death mode), evaluator exception at every evaluation, one pending poll at every index on either side; trace equality with the in-process run",
+        "Fault enumeration on the implementation with a PATH shim around the real runner: for every message of the baseline run the child is killed / exits / raises before or after it; the parent's evaluator raises at each evaluation; single pending polls on both sides; configuration alphabet run in-process and externally with byte-equal traces; horizon 120 s per execution; orphan check.",
+        "Trusted: the shim (60 lines, only wraps the real functions); OS scheduling is not controlled (lock-step protocol).",
+        "DESIGN.md 2/C20",
+    ),
 }
 
 NOT_YET = "check not built yet in this session (planned in DESIGN.md section 2); not claimed until its check exists"
